@@ -2,5 +2,6 @@ SPECIFICATION Spec
 CONSTANTS
   Orders = {3, 4}
   WideOrders = {3}
+  SecondKeyOrders = "asc"
   SoftOrders = {3}
 INVARIANT SpecOK
